@@ -246,6 +246,21 @@ def check(ctx):
                 ctx.check(ok or exempt, "C19.R11", f"{fi.qualname}:{norm(c)[:50]}", c,
                           f"`{short(c, 60)}` visits a nested type with whatever flattening state is current: inside a flattened field, the resolvers of the nested object are wrapped with the flattening getter and fail at execution", fi, c, detail="inside context_setter with get_flattened rebound")
 
+    # ---------------- R12: methods of a generic class are looked up with the parametrised type
+    ctx.rule("C19.R12", "serialized methods / resolvers are looked up with the visited type itself (`tp`, possibly a parametrised generic), not its origin class: their TypeVars are substituted from it", floor=3)
+    n12 = 0
+    for fi in model.functions.values():
+        for c in model.calls_in(fi, include_nested=True):
+            if (dotted(c.func) or "").split(".")[-1] in ("get_resolvers", "get_serialized_methods") and c.args and fi.name not in ("get_resolvers", "get_serialized_methods"):
+                n12 += 1
+                a = c.args[0]
+                hook = fi
+                while hook.parent is not None:
+                    hook = hook.parent
+                ok = isinstance(a, ast.Name) and a.id in hook.params and a.id == "tp"
+                ctx.check(ok, "C19.R12", f"{fi.qualname}:{norm(c.func)}", c, f"`{short(c, 50)}`: the lookup is made with `{norm(a)}` instead of the visited type `tp`: for a parametrised generic (Page[Item]) the TypeVars of the method's signature are not substituted and its result is published / serialized as Any", fi, c, detail="get_resolvers(tp) / get_serialized_methods(tp)")
+    ctx.require(n12 >= 3, f"only {n12} lookups of serialized methods / resolvers found")
+
     # ---------------- R10: defaults are given to graphql-core in its internal form
     ctx.rule("C19.R10", "argument / input-field defaults are produced in the form resolvers receive arguments (Enum members, as handle_enum assumes)", floor=2)
     rr = model.func("apischema.graphql.resolvers.resolver_resolve")
@@ -313,6 +328,7 @@ def mutants(mb):
     mb.add_text("default-hashed", G, "                elif param.default is None or param.default is Undefined:\n", "                elif param.default in {None, Undefined}:\n", "C19.R7", "_resolver")
     mb.add_text("field-default-hashed", G, "        if field_default is None or field_default is Undefined:\n", "        if field_default in {None, Undefined}:\n", "C19.R7", "_field")
     mb.add_text("flatten-context-leaks-to-field-types", G, "        factory = self._visit_field_type(field.type, field.serialization)\n", "        factory = self.visit_with_conv(field.type, field.serialization)\n", "C19.R11", "_field")
+    mb.add_text("resolvers-of-origin-class", G, "        for resolver, types in get_resolvers(tp):", "        for resolver, types in get_resolvers(cls):", "C19.R12", "get_resolvers")
     mb.add_text("neg-default-tuple-membership", G, "                elif param.default is None or param.default is Undefined:\n", "                elif param.default in (None, Undefined):\n", negative=True)
     mb.add_text("field-no-fallback-optional", G, "            except Exception:\n                field_type = Optional[field_type]\n", "            except Exception:\n                raise\n", "C19.R4", "_field")
     mb.add_text("default-no-aliaser", G, "                            param.default,\n                            aliaser=self.aliaser,\n", "                            param.default,\n", "C19", "")
